@@ -204,6 +204,7 @@ def gen(ex, depth, kinds=None):
     if k == 'map':
         if n == 2: n = choose_from(ex, 'mapnum', [2, 3])          # three entries: the third repeats the first key (the last one wins in serde_json)
         keys = [SerVal('str', 'k'), SerVal('char', Int(ord('c'), 'char')), SerVal('str', 'k')][:n] if n else []
+        if n == 1 and choose_from(ex, 'badkey', [False, True]): return SerVal(k, [(SerVal('unit'), SerVal('unit'))])          # a key that is not a string: the conversion fails (outside the property, but it must not leave anything behind)
         if n == 3: return SerVal(k, [(keys[0], sub()), (keys[1], SerVal('unit')), (keys[2], SerVal('str', 'last'))])          # the repeated key: its last value must win
         return SerVal(k, [(kk, sub()) for kk in keys])
     if k == 'struct': return SerVal(k, 'S', [(nm, sub()) for nm in ['x', 'y'][:n]])
